@@ -3,4 +3,5 @@ EXTENDS Reduction_Trace
 MC_NoVars == << >>
 MC_NoSets == << >>
 MC_NoPaths == [x \in {} |-> << >>]
+MC_LineAny(i, d, ic, a, c) == TRUE
 =============================================================================
